@@ -106,6 +106,11 @@ MUTANTS = [
     ("C19", "le-instead-of-lt", "typhon/retrieval/scores.py", "    abs_2 = (1.0 - taus) * np.abs(y_tau - y_test)", "    abs_2 = (1.0 - taus) * np.abs(y_tau - y_test) + (y_tau == y_test) * 1.0"),
     ("C19", "shape-error-swallowed", "typhon/retrieval/scores.py", "        raise ValueError(\n            \"Shape of y_test is incompatible with y_tau and taus.\")", "        y_test = y_test.ravel()[:n].reshape(n, 1)"),
     ("C19", "mean-over-wrong-axis", "typhon/retrieval/scores.py", "np.nanmean(quantile_score(y_tau, y_test, taus), axis=0)", "np.nanmean(quantile_score(y_tau, y_test, taus), axis=-1)"),
+    ("C14", "isa-clamped-beyond-table", "typhon/physics/atmosphere.py", "    return interp1d(z_ref, temp + constants.K, fill_value='extrapolate')(z)", "    return np.interp(z, z_ref[::1] if z_ref[0] < z_ref[-1] else z_ref[::-1], (temp + constants.K)[::1] if z_ref[0] < z_ref[-1] else (temp + constants.K)[::-1])"),
+    ("C14", "isa-level-typo", "typhon/physics/atmosphere.py", "    h = np.array([-610, 11000, 20000, 32000, 47000, 51000, 71000, 84852])", "    h = np.array([-610, 11000, 20000, 32000, 47000, 52000, 71000, 84852])"),
+    ("C14", "p2h-default-uses-height-addressing", "typhon/physics/atmosphere.py", "        T = standard_atmosphere(p, coordinates='pressure')", "        T = standard_atmosphere(p)"),
+    ("C14", "crh-levels-from-second-dim", "typhon/physics/atmosphere.py", "            l = es.shape[axis]\n", "            l = len(es[axis])\n"),
+    ("C14", "crh-pressure-against-last-axis", "typhon/physics/atmosphere.py", "        for i in range(0,l):\n            qs[i] = water_vapor_pressure2specific_humidity(es[i], p[i])\n", "        qs = water_vapor_pressure2specific_humidity(es, p)\n"),
     ("C14", "axis-ignored", "typhon/math/common.py", "    return trapezoid(y, x, axis=axis)", "    return trapezoid(y, x)"),
     ("C14", "iwv-sign", "typhon/physics/atmosphere.py", "        return -math.integrate_column(q, p, axis=axis) / g", "        return math.integrate_column(q, p, axis=axis) / g"),
     ("C14", "iwv-uses-vmr-not-q", "typhon/physics/atmosphere.py", "        return -math.integrate_column(q, p, axis=axis) / g", "        return -math.integrate_column(vmr, p, axis=axis) / g"),
@@ -117,7 +122,14 @@ MUTANTS = [
     ("C08", "jacobian-f-not-f2", "typhon/physics/em.py", "    perm = perhz * f_grid.reshape(shape)**2 / c", "    perm = perhz * f_grid.reshape(shape) / c"),
     ("C08", "perwn-divides", "typhon/physics/em.py", "    perwn = perhz * c", "    perwn = perhz / c"),
     ("C08", "rj-tb-missing-2", "typhon/physics/em.py", "    return np.divide(c**2, (2 * f**2 * k)) * r", "    return np.divide(c**2, (f**2 * k)) * r"),
+    ("C08", "snell-indices-swapped", "typhon/physics/em.py", "        theta2 = np.arcsin(n1 * np.sin(np.deg2rad(theta1)) / n2)", "        theta2 = np.arcsin(n2 * np.sin(np.deg2rad(theta1)) / n1)"),
+    ("C08", "snell-array-wide-nan", "typhon/physics/em.py", "        theta2 = np.arcsin(n1 * np.sin(np.deg2rad(theta1)) / n2)", "        theta2 = np.arcsin(n1 * np.sin(np.deg2rad(theta1)) / n2)\n        if np.any(np.isnan(theta2)):\n            theta2 = np.nan"),
+    ("C08", "snell-clips-total-reflection", "typhon/physics/em.py", "        theta2 = np.arcsin(n1 * np.sin(np.deg2rad(theta1)) / n2)", "        theta2 = np.arcsin(np.clip(n1 * np.sin(np.deg2rad(theta1)) / n2, -1, 1))"),
+    ("C08", "fresnel-rv-uses-rh-weights", "typhon/physics/em.py", "    Rv = (n2 * costheta1 - n1 * costheta2) / (n2 * costheta1 + n1 * costheta2)", "    Rv = (n1 * costheta1 - n2 * costheta2) / (n2 * costheta1 + n1 * costheta2)"),
+    ("C08", "fresnel-theta-in-radians", "typhon/physics/em.py", "    costheta2 = np.cos(np.deg2rad(theta2))", "    costheta2 = np.cos(theta2)"),
+    ("C08", "perwn-in-place", "typhon/physics/em.py", "    perhz = perwn / c", "    perhz = np.asarray(perwn, dtype=float)\n    perhz /= c"),
     ("C08", "wavelength2wavenumber-c", "typhon/physics/em.py", "def wavelength2wavenumber(wavelength):", "def wavelength2wavenumber(wavelength, _c=constants.speed_of_light):\n    return np.divide(_c, wavelength)\ndef _unused_w2n(wavelength):"),
+    ("C09", "w2q-cancellation", "typhon/physics/atmosphere.py", "    return w / (1 + w)", "    return 1 - 1 / (1 + w)"),
     ("C09", "mass-ratio-inverted", "typhon/physics/atmosphere.py", "    return x / (1 - x) * Mw / Md", "    return x / (1 - x) * Md / Mw"),
     ("C09", "blend-mask-swapped", "typhon/physics/atmosphere.py", "    e_eq[is_ice] = e_eq_ice[is_ice]\n    e_eq[is_water] = e_eq_water[is_water]", "    e_eq[is_ice] = e_eq_water[is_ice]\n    e_eq[is_water] = e_eq_ice[is_water]"),
     ("C09", "blend-offset", "typhon/physics/atmosphere.py", "            * ((T - constants.triple_point_water + 23) / 23)**2", "            * ((T - constants.triple_point_water - 23) / 23)**2"),
@@ -131,6 +143,8 @@ MUTANTS = [
     ("C17", "avk-KG", "typhon/retrieval/oem/common.py", "    return retrieval_gain_matrix(K, S_a, S_y) @ K", "    return (K @ retrieval_gain_matrix(K, S_a, S_y)) if K.shape[0] == K.shape[1] else retrieval_gain_matrix(K, S_a, S_y) @ K"),
     ("C17", "gain-missing-Sy", "typhon/retrieval/oem/common.py", "    return inv(inv(S_a) + K.T @ inv(S_y) @ K) @ K.T @ inv(S_y)", "    return inv(inv(S_a) + K.T @ inv(S_y) @ K) @ K.T"),
     ("C17", "smoothing-sign", "typhon/retrieval/oem/error.py", "    return A @ (x - x_a)", "    return A @ (x_a - x)"),
+    ("C18", "inverse-ignores-correlations", "typhon/retrieval/bmci/bmci.py", "        self.s_o_inv = np.linalg.inv(self.s_o)", "        self.s_o_inv = np.diag(1.0 / np.diag(self.s_o))"),
+    ("C18", "window-half-width-misparenthesised", "typhon/retrieval/bmci/bmci.py", "        s_l = y_proj - np.sqrt(2.0 * x2_max / self.pc1_e)\n        s_u = y_proj + np.sqrt(2.0 * x2_max / self.pc1_e)", "        s_l = y_proj - np.sqrt(2.0 * x2_max) / self.pc1_e\n        s_u = y_proj + np.sqrt(2.0 * x2_max) / self.pc1_e"),
     ("C18", "window-slice-from-zero", "typhon/retrieval/bmci/bmci.py", "                xs[i] = np.sum(self.x[i_l:i_u].ravel() * ws.ravel() / c)", "                xs[i] = np.sum(self.x[:i_u - i_l].ravel() * ws.ravel() / c)"),
     ("C18", "np-float-nan", "typhon/retrieval/bmci/bmci.py", "                xs[i] = float(\"nan\")", "                xs[i] = np.float(\"nan\")"),
     ("C18", "x-not-sorted-with-y", "typhon/retrieval/bmci/bmci.py", "        self.x = x[indices]", "        self.x = x"),
